@@ -223,9 +223,6 @@ def rule_bind_keep(db: ProgramDB) -> List[Instance]:
             bad = None
             n_out = 0
             for node, exprs in outs:
-                # only outputs that depend on the loop variable at all
-                if not any(names_in(e) & derived for e in exprs):
-                    continue
                 n_out += 1
                 keeps = False
                 for e in exprs:
@@ -310,7 +307,7 @@ def combinator_class(db: ProgramDB, fn: FuncInfo, depth=0) -> Tuple[str, str]:
                 if k != "unknown":
                     return k, f"{t.name}: {why}"
     if any(isinstance(c.func, ast.Name) and c.func.id == "next" for c in src_calls) and not \
-            any(isinstance(n, ast.For) for n in own_nodes(fn.node)):
+            any(isinstance(n, (ast.For, ast.While)) for n in own_nodes(fn.node)):
         return "lockstep", "a lone next(): at most one element of each stream"
     return "unknown", "no recognised combination idiom"
 
